@@ -122,6 +122,18 @@ def prune_work(max_age_s=3 * 3600):
         pass
 
 
+def guard_disk(min_free_gb=25):
+    """Every scratch worktree path adds its own entries to the go build cache (it reached 114 GB once and filled the disk).
+    When the file system runs low the cache is dropped; it only holds compiled artefacts and is rebuilt on demand."""
+    try:
+        st = os.statvfs(WORK if os.path.isdir(WORK) else VERIF)
+        if st.f_bavail * st.f_frsize < min_free_gb * (1 << 30):
+            subprocess.run(["go", "clean", "-cache"], cwd=REPO, env=goenv(), stdout=subprocess.DEVNULL, stderr=subprocess.DEVNULL)
+            log("[disk] low on space: go build cache dropped")
+    except OSError:
+        pass
+
+
 def rapid_seed(seed, shard):
     s = (int(seed) * 2654435761 + shard * 40503) % (2 ** 62)
     return s if s != 0 else 1
@@ -149,6 +161,7 @@ def main():
         log(f"unknown property {pid}")
         return 2
     prune_work()
+    guard_disk()
     try:
         seed = int(os.environ.get("VERIF_SEED", "1"))
     except ValueError:
